@@ -18,6 +18,9 @@ pub mod verif {
     use chalk_ir::{ClausePriority, DomainGoal};
     use chalk_solve::Solution;
 
+    /// work counter / budget of `RecursiveContext::{solve_goal, solve_new_subgoal}`
+    pub use crate::fixed_point::verif::{reset as reset_work, work, BUDGET_PANIC};
+
     /// `combine::with_priorities`
     pub fn with_priorities<I: Interner>(
         interner: I,
